@@ -732,6 +732,11 @@ func GenBig(seed, run uint64, tier, mode string) *plan.Plan {
 			case "Binomial":
 				st.N = int64(r.Intn(120))
 				st.K = int64(r.Intn(130))
+				if r.Chance(1, 4) {
+					// zero and negative arguments
+					st.N = int64(r.Range(-8, 3))
+					st.K = int64(r.Range(-4, 6))
+				}
 			case "MulRange":
 				st.N = int64(r.Range(-30, 60))
 				st.K = st.N + int64(r.Range(-3, 60))
@@ -809,12 +814,12 @@ func callRecover(f func() string) (out string, pan string) {
 	defer func() {
 		if r := recover(); r != nil {
 			if _, ok := r.(hangSentinel); ok {
-				unwound = true
+				markUnwound()
 				pan = "hang"
 				return
 			}
 			if _, ok := r.(deadlockSentinel); ok {
-				unwound = true
+				markUnwound()
 				pan = "deadlock"
 				return
 			}
